@@ -8,8 +8,12 @@ add("C20", "exploration", "property-based testing (Hypothesis): constructed weig
     "Generated stage-weight vectors (exact decimal/dyadic partitions of one, perturbed, malformed) are loaded through "
     "FlowIRConcrete and through a real package+StatusMonitor; outputs are checked for non-negativity, unit sum, "
     "preservation of valid weights, and total progress in [0,1] (=1 when complete) against an exact-rational oracle. "
-    "Small partitions are enumerated exhaustively. Held-on-everything-generated, not a proof.",
-    "Trusts the scripted controller double to reflect Controller.get_stage_status/get_stages_*; near-one (within 1e-3) "
+    "Small partitions are enumerated exhaustively. The status-report mapping is also listed in permuted order / "
+    "without entries for weight-less stages. Sub-check `controller`: the real Controller's get_stages_in_transit / "
+    "get_stages_finished / get_stage_status feed the real CheckStatus over generated combinations of component states "
+    "and observed (comp_done) flags. Held-on-everything-generated, not a proof.",
+    "The `monitor` sub-check scripts the controller's answers; the `controller` sub-check sets component states and "
+    "comp_done directly (including combinations the sequential stage loop does not produce); near-one (within 1e-3) "
     "inexact sums are outside the generated domain.", "DESIGN.md section 3, C20")
 
 _RT_NOTE = ("Trusted base: the deterministic kernel in vf/rt (replaces reactivex thread pools/timers, time.sleep, "
